@@ -102,7 +102,8 @@ def _is_dsc(pdu: bytes) -> bool:
 
 # ------------------------------------------------------------------ service model
 # class tuples: ("Absent",) ("AbsentHere",) ("LenErr",) ("Silent",)
-#               ("Ans", k, "Pos"|"Neg", nrc, drop)   answers from payload length k on; shorter: length error
+#               ("Ans", k, "Pos"|"Neg", nrc, drop[, quiet])   answers from payload length k on;
+#                                                    shorter: length error (quiet: no answer at all)
 
 
 def class_answer(cls: tuple[Any, ...] | list[Any], sid: int, plen: int) -> tuple[int, bytes | None]:
@@ -117,6 +118,8 @@ def class_answer(cls: tuple[Any, ...] | list[Any], sid: int, plen: int) -> tuple
         return NONE, None
     assert k == "Ans", cls
     if plen < cls[1]:
+        if len(cls) > 5 and cls[5]:
+            return NONE, None  # "quiet below": too short requests are ignored instead of rejected
         return LEN, bytes([0x7F, sid, NRC_LEN])
     if cls[2] == "Pos" and sid in POSITIVE:
         return POS, POSITIVE[sid]
